@@ -2,7 +2,8 @@
    bool, list, option, prod, unit, sumbool map to OCaml's; nat, Z, positive, string stay
    the extracted inductives; no Extract Constant / Extract Inductive of our own). *)
 From Coq Require Import Extraction ExtrOcamlBasic.
-From DX Require Import Base TreeReduce Repart RepartProofs Shuffle.
+From DX Require Import Base TreeReduce Repart RepartProofs Shuffle LRU Pred Graph.
 Extraction "model.ml" Z.add Z.compare tree_layer part_all
   repart_plan clean_boundaries fewer_ranges more_nsplits more_layer valid_divs plan_ok
-  task_or_simple simple_layer task_layer digit insert_digit.
+  task_or_simple simple_layer task_layer digit insert_digit
+  rewrite_filters contains getitem setitem wf_check.
